@@ -237,3 +237,15 @@ prop("C20", "exploration",
      "(measured from per-thread start/end stamps); distinct by (threads, first thread's order, launch number)",
      [dict(name="c20_g%d" % g, sources=["c20_threads.cpp"], flavour="tsan", flags=["-DZOO_GROUP=%d" % g], deps=ZOO_DEPS + ["common/fachook.hpp"], max_workers=3) for g in (0, 1, 2)],
      assumptions=TRUST + ["ThreadSanitizer sees the happens-before relation of the executions it observes; the evidence records how many cross-thread task pairs actually overlapped"])
+
+
+# ------------------------------------------------------------------------------------------ C07
+prop("C07", "exploration",
+     "online invariant checker at the guarded hook (end of Arnoldi::init, of both factorize_from, of compress_V, on return from expand_basis): at every event, for the advertised k, "
+     "||OP V_k - V_k H_k - f e_k'||_F, max|V'BV - I|, max|V'Bf|, | ||f||_B - beta | against C*k*u*||OP|| (times the condition of the factorized / inner-product matrix, times sqrt(1+events)), H_k exactly real "
+     "symmetric tridiagonal (Lanczos) or Hessenberg to rounding (Arnoldi), restarted columns with an exactly zero subdiagonal. OP and B are dense extended-precision models built independently per "
+     "solver mode. Workload 1: solver runs of 11 configurations (standard, shift-and-invert real/complex, Cholesky, regular inverse, generalized shift-invert, buckling, Cayley); workload 2: Arnoldi<double>, "
+     "Lanczos<double>, Lanczos<complex>, Lanczos with B inner product driven directly through 1..25 (60 thorough) restarts with exact and arbitrary shifts, single and double; plus a fixed corpus over the "
+     "finding-prone domain (breakdown-prone classes, invariant-subspace start vectors, scales 1e-8..1e8). Non-trivial = at least one compress and one extend event; distinct by the run's parameters",
+     [dict(name="c07_g%d" % g, sources=["c07_krylov.cpp"], flavour="asan", flags=["-DZOO_GROUP=%d" % g], deps=ZOO_DEPS + ["common/fachook.hpp", "common/facmon.hpp"]) for g in (0, 1, 2)],
+     assumptions=TRUST + ["the checker reads the factorization through guarded friend access at the hook; it never writes"])
